@@ -43,7 +43,8 @@ func ruleRefuseUnrepresentable(c *Ctx, rule string) {
 			continue
 		}
 		// every path: either setErr (and no writeString) or writeString after the validity edges
-		gf := mustFlow(fn, facts{}, func(f facts, i ssa.Instruction) facts {
+		// (mustFlowDeep: an error-building helper that always calls setErr counts as setErr)
+		gf := mustFlowDeep(fn, facts{}, func(f facts, i ssa.Instruction) facts {
 			if call, ok := i.(ssa.CallInstruction); ok {
 				switch callKey(call) {
 				case "(*Encoder).setErr":
@@ -249,17 +250,24 @@ func ruleThresholdAgreement(c *Ctx, rule string) {
 	}
 	// quoted/literal boundary: validQuoted's length limit equals the buffered-literal limit
 	var limits []int64
+	sides := map[string]int{}
 	for _, fn := range []*ssa.Function{vq, sl, cbl, al} {
-		allInstrs(fn, func(i ssa.Instruction) {
+		fn := fn
+		deepInstrs(fn, 2, func(i ssa.Instruction) {
 			if bo, ok := i.(*ssa.BinOp); ok && (bo.Op == token.GTR || bo.Op == token.LEQ || bo.Op == token.GEQ || bo.Op == token.LSS) {
 				if k, ok := constInt(bo.Y); ok && k >= 1024 {
 					limits = append(limits, k)
+					if fn == vq || fn == sl {
+						sides["writer"]++
+					} else {
+						sides["reader"]++
+					}
 					c.check(k == 4096, rule, fmt.Sprintf("%s: size limit#%d", fnKey(fn), countKey(c, rule, fnKey(fn)+": size limit#")+1), bo.Pos(), "4096", fmt.Sprintf("limit %d differs from the 4096 bytes of RFC 7888 / the peer's limit", k))
 				}
 			}
 		})
 	}
-	if len(limits) < 4 {
+	if sides["writer"] == 0 || sides["reader"] == 0 {
 		c.unresolvedRoot("literal size comparisons in validQuoted/stringLiteral/checkBufferedLiteral/acceptLiteral")
 	}
 }
@@ -314,21 +322,50 @@ func ruleOpenLiteralTypestate(c *Ctx, rule string) {
 		return
 	}
 	limited := false
-	allInstrs(lr, func(i ssa.Instruction) {
+	var fromHeader func(v ssa.Value, depth int) bool
+	fromHeader = func(v ssa.Value, depth int) bool {
+		switch x := v.(type) {
+		case *ssa.UnOp:
+			if al, ok := x.X.(*ssa.Alloc); ok {
+				for _, ref := range *al.Referrers() {
+					if c2, ok := ref.(*ssa.Call); ok && strings.Contains(callKey(c2), "Number64") {
+						return true
+					}
+				}
+			}
+		case *ssa.Parameter:
+			if depth >= 2 {
+				return false
+			}
+			fn := x.Parent()
+			idx := -1
+			for k, q := range fn.Params {
+				if q == x {
+					idx = k
+				}
+			}
+			sites := callSitesOf(p, fn)
+			if idx < 0 || len(sites) == 0 {
+				return false
+			}
+			for _, s := range sites {
+				if idx >= len(s.Common().Args) || !fromHeader(s.Common().Args[idx], depth+1) {
+					return false
+				}
+			}
+			return true
+		}
+		return false
+	}
+	deepInstrs(lr, 2, func(i ssa.Instruction) {
 		call, ok := i.(*ssa.Call)
 		if !ok {
 			return
 		}
 		if o := calleeObj(call); o != nil && o.Pkg() != nil && o.Pkg().Path() == "io" && o.Name() == "LimitReader" {
-			// second argument: the number parsed by ExpectNumber64 (a load of the local it filled)
-			if ld, ok := call.Call.Args[1].(*ssa.UnOp); ok {
-				if al, ok := ld.X.(*ssa.Alloc); ok {
-					for _, ref := range *al.Referrers() {
-						if c2, ok := ref.(*ssa.Call); ok && strings.Contains(callKey(c2), "Number64") {
-							limited = true
-						}
-					}
-				}
+			// second argument: the number parsed by ExpectNumber64 (a load of the local it filled, possibly handed to a helper)
+			if fromHeader(call.Call.Args[1], 0) {
+				limited = true
 			}
 		}
 	})
